@@ -78,7 +78,7 @@ def evaluate_real(src, queries, rng, full_rate):
             first = sc.real_check(q, "ensure", 0)
             rec["checks"][("ensure", 0)] = first
             count = first.get("count") if isinstance(first.get("count"), int) else 0
-            full = count > 0 or rng.random() < full_rate
+            full = rng.random() < full_rate
             for thr in sc.thresholds_for(count, rng, full):
                 if thr != 0:
                     rec["checks"][("ensure", thr)] = sc.real_check(q, "ensure", thr)
@@ -220,11 +220,12 @@ def programs(rng, tier):
     corpus = sc.corpus_sources()
     out = [("seed", s) for s in SEED_PROGRAMS] + [("corpus", s) for s in corpus_cases()]
     if tier == "quick":
-        picks = rng.sample(corpus, min(8, len(corpus)))
-        n = 30
+        small = [c for c in corpus if len(c[1]) <= 1500]
+        picks = rng.sample(small, min(5, len(small)))
+        n = 24
     else:
-        picks = corpus
-        n = 700
+        picks = [c for c in corpus if len(c[1]) <= 4000]
+        n = 300
     out += [("repo:" + name, s) for name, s in picks]
     out += [("gen", gen.program()) for _ in range(n)]
     return out
@@ -245,9 +246,9 @@ def correspond(rng, tier, driver):
             tree = ast.parse(src)
         except SyntaxError:
             continue
-        big = sum(1 for _ in ast.walk(tree)) > 400
+        big = sum(1 for _ in ast.walk(tree)) > 150
         qs = sc.queries_for(src, rng, full=not big)
-        real = evaluate_real(src, qs, rng, 0.1 if tier == "quick" else 0.25)
+        real = evaluate_real(src, qs, rng, 0.15 if tier == "quick" else 0.3)
         cases.append((origin, src, qs, real))
         lines.append(sc.request_line(src, qs))
     answers = driver.ask(lines)
@@ -308,7 +309,7 @@ def search(rng, tier, broken, corr):
             occ = sc.oracle_nodes(tree, q)
             if occ:
                 nt.add((src, repr(q_json(q))))
-            if v is None:
+            if v is None or len(failures) >= 8:
                 continue
             sig, what, _ = v
             key = json.dumps(sig, sort_keys=True)
@@ -328,10 +329,10 @@ def search(rng, tier, broken, corr):
             break
     gen = sc.Gen(rng)
     n = 25 if tier == "quick" else 500
-    if broken:
+    if broken and not failures:
         n *= 3
     extra = [gen.program(max_stmts=4) for _ in range(n)]
-    if tier == "thorough" or broken:
+    if tier == "thorough" or (broken and not failures):
         extra += list(small_scope())
     for src in extra:
         if len(failures) >= 8:
